@@ -138,7 +138,8 @@ def bounds(tier):
                                       "x n2 from two p1" % (2 if tier == "quick" else 3),
         "unitcell": "lengths x {60,75,90,110}^3 and {89.99,90,90.01}^3 degrees x scales {1e-3, 1, 1e3}",
         "remove_pbc": "every graph on <= 4 labelled vertices (1+2+8+64) x 3 geometries x 4 boxes; wraps in {-1,0,1}^3 per "
-                      "atom: %s" % ("<= 2 atoms wrapped" if tier == "quick" else "all (n<=3), <= 3 atoms wrapped (n=4)"),
+                      "atom: %s" % ("<= 2 atoms wrapped (n=4 zigzag/straddle: <= 1)" if tier == "quick" else
+                                    "all (n<=3), <= 3 atoms wrapped (n=4)"),
         "shapes": "every combination of (3,), (n,3), (m,n,3) and Atom/AtomArray/AtomArrayStack per argument",
     }
 
@@ -209,6 +210,7 @@ def run_dist(shard, ctx, focus=None):
         d = call(rep, "distance", fc, struc.distance, A, B)
         v = call(rep, "displacement", fc, struc.displacement, A, B)
         ctx.ev(2 * len(A), 2 * nontriv)
+        ctx.count("accepted", 2 * len(A))
         if d is not None:
             if d.shape != dtb.shape:
                 rep.bad("distance|bad_shape|n3_n3", "wrong result shape", fc, dtb.shape, d.shape)
@@ -284,6 +286,7 @@ def run_angle(shard, ctx, focus=None):
         A, B, C = (f32(motion_points(X, R, t)) for X in (A0, B0, C0))
         a = call(rep, "angle", fc, struc.angle, A, B, C)
         ctx.ev(len(A), nontriv)
+        ctx.count("accepted", nontriv)
         ctx.count("unspecified", int((~ok).sum()))
         if a is None:
             continue
@@ -368,6 +371,7 @@ def run_dihedral(shard, ctx, focus=None):
         M = [f32(motion_points(q, R, t)) for q in Q]
         v = call(rep, "dihedral", fc, struc.dihedral, *M)
         ctx.ev(len(a), nontriv)
+        ctx.count("accepted", nontriv)
         ctx.count("unspecified", int((~ok).sum()))
         if v is None:
             continue
@@ -1533,7 +1537,9 @@ def shards(tier, seed):
     for gname in GEOMS:
         for n in (1, 2, 3, 4):
             if tier == "quick":
-                parts, maxw = (8 if n == 4 else 1), 2
+                # zigzag / straddle with 4 atoms: <= 1 wrapped atom at the quick tier (thorough: <= 3)
+                maxw = 1 if (n == 4 and gname != "compact") else 2
+                parts = 8 if (n == 4 and maxw == 2) else 2 if n == 4 else 1
             else:
                 parts, maxw = (64 if n == 4 else 4 if n == 3 else 1), (3 if n == 4 else n)
             for p in range(parts):
